@@ -383,12 +383,41 @@ def mirror_template(draw, tier="quick"):
 
 
 @st.composite
+def factor_cycle_template(draw, tier="quick"):
+    """A universe without a specification: C = x y* factors as L x R (L = {x} as a class
+    that is not an atom, R = y*), neither C nor L can be expanded or peeled, so L is only
+    known as C / R and C only as L x R - a cycle with shift 0.  A searcher that returns
+    a specification here has accepted an unproductive rule set (e.g. because a declared
+    shift is wrong); the correct answer is 'not found'."""
+    x, y = draw(st.sampled_from([("a", "b"), ("b", "a")]))
+    pats = sorted({x + x, y + x})
+    nstats = draw(st.sampled_from([0, 0, 1]))
+    stats = ["".join(sorted(set(draw(st.text(alphabet="abz", min_size=0, max_size=2))))) for _ in range(nstats)]
+    cls = ["ab", x, pats, 0, stats, 0, 0]
+    pack = {
+        "initial": [["Peel", {"atom_last": draw(st.booleans())}]],
+        "inferral": [],
+        "expansion": [[
+            ["Factor", {"cut": 0, "flip": x == "b", "swap": draw(st.booleans())}],
+            ["Expand", {"order": draw(st.integers(0, 3)), "skip_prefixes": [x]}],
+        ]],
+        "ver": [["WordAtom", {}]],
+        "symmetries": [],
+        "iterative": False,
+    }
+    return cls, pack
+
+
+@st.composite
 def scenario(draw, tier="quick", dbs=None, finite=False, atoms_only=False, allow_iterative=True, allow_pack=True,
              allow_reverse_template=True, min_stats=0):
     template = allow_reverse_template and not finite and draw(st.integers(0, 7)) == 0
     mirror = not template and draw(st.integers(0, 11)) == 0
     if template:
         cls, pack = draw(reverse_template(tier))
+        db = draw(st.sampled_from([d for d in (dbs or DBS) if d == "Forest"] * 3 + list(dbs or DBS)))
+    elif not finite and not atoms_only and draw(st.integers(0, 24)) == 0:
+        cls, pack = draw(factor_cycle_template(tier))
         db = draw(st.sampled_from([d for d in (dbs or DBS) if d == "Forest"] * 3 + list(dbs or DBS)))
     elif mirror:
         cls, pack = draw(mirror_template(tier))
